@@ -331,9 +331,70 @@ theorem tie_PlanningProblem (m : Mo) (pp : Problem) : Gen.PlanningProblem_transl
   | error e => simp [bind, Except.bind, h1]
   | ok i' => cases h2 : moveStates m pp.goal <;> simp [bind, Except.bind, pure, Except.pure, h1, h2]
 
-theorem tie_PlanningProblemSet (m : Mo) (l : List Problem) : Gen.PlanningProblemSet_translate_rotate m l = moveProblems m l := by
-  simp only [Gen.PlanningProblemSet_translate_rotate, moveProblems, forEach_eq_mapR]
-  try (cases h2 : mapR (Problem.move m) l <;> simp [bind, Except.bind, pure, Except.pure, h2])
+/-! #### the planning-problem set on the reference view
+
+  `PlanningProblemSet.translate_rotate` of the current source is translated over `ProblemSet` (the GoalRegion objects as a heap,
+  a problem = initial state + index of the object it holds); `planning_problem.goal is goal_region` is equality of indices.  The
+  body of its loop is a definition of its own (`Gen.PlanningProblemSet_translate_rotate_loop1`), the loop `forEachS` of it. -/
+
+/-- one iteration of the loop of the current source = one step of the model's `ProblemSet.loop`: the initial state is always
+    replaced; the goal-region object is moved (and remembered) iff it is not among the remembered ones. -/
+theorem tie_PlanningProblemSet_step (m : Mo) (heap : List (List State)) (acc : List Nat) (p : State × Nat) :
+    Gen.PlanningProblemSet_translate_rotate_loop1 m (heap, acc) p =
+      (match State.move m p.1 with
+       | .error e => .error e
+       | .ok i' =>
+         if p.2 ∈ acc then .ok ((i', p.2), (heap, acc))
+         else match moveStates m (goalAt heap p.2) with
+           | .error e => .error e
+           | .ok g' => .ok ((i', p.2), (heap.set p.2 g', acc ++ [p.2]))) := by
+  simp only [Gen.PlanningProblemSet_translate_rotate_loop1, Problem.move, tie_GoalRegion]
+  by_cases hmem : p.2 ∈ acc
+  · cases h1 : State.move m p.1 <;> simp [bind, Except.bind, pure, Except.pure, hmem, h1]
+  · cases h1 : State.move m p.1 with
+    | error e => simp [bind, Except.bind, pure, Except.pure, hmem, h1]
+    | ok i' =>
+      cases h2 : moveStates m (goalAt heap p.2) <;> simp [bind, Except.bind, pure, Except.pure, hmem, h1, h2]
+
+/-- the loop of the current source, started with any list `acc` of remembered objects that has the members of the model's
+    `done`, yields the problems and the heap of the model's `ProblemSet.loop`. -/
+theorem tie_PlanningProblemSet_loop (m : Mo) : ∀ (l : List (State × Nat)) (heap : List (List State)) (acc done : List Nat),
+    (∀ x, x ∈ acc ↔ x ∈ done) →
+    (match forEachS (Gen.PlanningProblemSet_translate_rotate_loop1 m) (heap, acc) l with
+     | .error e => .error e
+     | .ok r => .ok (r.1, r.2.1)) = ProblemSet.loop m l heap done
+  | [], heap, acc, done, _ => rfl
+  | p :: rest, heap, acc, done, hm => by
+    simp only [forEachS, ProblemSet.loop, tie_PlanningProblemSet_step]
+    cases h1 : State.move m p.1 with
+    | error e => rfl
+    | ok i' =>
+      by_cases hmem : p.2 ∈ acc
+      · have hd : p.2 ∈ done := (hm _).1 hmem
+        have ih := tie_PlanningProblemSet_loop m rest heap acc done hm
+        simp only [hmem, hd, if_true, ← ih]
+        cases forEachS (Gen.PlanningProblemSet_translate_rotate_loop1 m) (heap, acc) rest <;> rfl
+      · have hd : ¬ p.2 ∈ done := fun h => hmem ((hm _).2 h)
+        simp only [hmem, hd, if_false]
+        cases h2 : moveStates m (goalAt heap p.2) with
+        | error e => rfl
+        | ok g' =>
+          have hm' : ∀ x, x ∈ acc ++ [p.2] ↔ x ∈ p.2 :: done := by
+            intro x
+            rw [List.mem_append, List.mem_singleton, List.mem_cons, hm x]
+            exact Or.comm
+          have ih := tie_PlanningProblemSet_loop m rest (heap.set p.2 g') (acc ++ [p.2]) (p.2 :: done) hm'
+          simp only [← ih]
+          cases forEachS (Gen.PlanningProblemSet_translate_rotate_loop1 m) (heap.set p.2 g', acc ++ [p.2]) rest <;> rfl
+
+/-- `PlanningProblemSet.translate_rotate` of the current source IS the model's `ProblemSet.move` (a goal-region object shared by
+    several problems is moved once; twins - equal by value, two objects - are both moved), for every set and every motion.
+    `C05_problem_set_objects` (CRProps/C05) then gives: what the accessors show afterwards is `moveProblems` of what they showed. -/
+theorem tie_PlanningProblemSet (m : Mo) (ps : ProblemSet) : Gen.PlanningProblemSet_translate_rotate m ps = ProblemSet.move m ps := by
+  simp only [Gen.PlanningProblemSet_translate_rotate, ProblemSet.move,
+    ← tie_PlanningProblemSet_loop m ps.problems ps.goals [] [] (fun _ => Iff.rfl)]
+  cases forEachS (Gen.PlanningProblemSet_translate_rotate_loop1 m) (ps.goals, []) ps.problems <;>
+    simp [bind, Except.bind, pure, Except.pure]
 
 /-! ### structural tie: which attributes each in-place `translate_rotate` of the CURRENT source touches
 
